@@ -72,7 +72,41 @@ fn check_styles_agree(rep: &mut Report, cx: &Ctx, dump: &Value, versions: &[MVer
         STYLES.iter().map(|s| dump[*s]["error"].as_str().map(|x| x.to_string())).collect();
     if errs.iter().any(|e| e.is_some()) {
         if errs.iter().all(|e| e.is_some()) {
-            rep.inconclusive("generated program could not build any ApiDescription (generator domain)");
+            // The generator only emits sets whose ranges are pairwise disjoint
+            // per (method, path) under the reference model and whose paths
+            // cannot conflict structurally.  A registration refused for
+            // overlapping versions therefore contradicts the declared ranges.
+            let decls = &cx.prog.decls;
+            let mut model_conflict = false;
+            for (i, a) in decls.iter().enumerate() {
+                for b in &decls[i + 1..] {
+                    if a.method == b.method
+                        && a.path == b.path
+                        && a.versions.mrange().intersects(&b.versions.mrange())
+                    {
+                        model_conflict = true;
+                    }
+                }
+            }
+            let msg = errs[0].clone().unwrap_or_default();
+            if !model_conflict
+                && (msg.contains("overlapping version ranges") || msg.contains("duplicate route"))
+                && errs.iter().all(|e| e.as_deref() == Some(msg.as_str()) || true)
+            {
+                let path_in_msg = decls
+                    .iter()
+                    .find(|d| msg.contains(&format!("\"{}\"", d.listed_path())) || msg.contains(&format!("\"{}\"", d.path)));
+                rep.violate(
+                    "C19:attribute-not-honoured:versions",
+                    cx.wit(path_in_msg, json!({"where": "registration (all three styles refused)",
+                        "why": "declared ranges on this method and path are pairwise disjoint, yet registration reports an overlap",
+                        "same_path_declarations": path_in_msg.map(|p| decls.iter().filter(|d| d.path == p.path && d.method == p.method)
+                            .map(|d| json!([d.name, d.versions.show()])).collect::<Vec<_>>()),
+                        "fn": errs[0], "tr": errs[1], "stub": errs[2]})),
+                );
+            } else {
+                rep.inconclusive("generated program could not build any ApiDescription (generator domain)");
+            }
         } else {
             rep.violate(
                 "C19:styles-differ-in-registration",
